@@ -716,6 +716,8 @@ pub fn eval_conv_root(c: &RootCase) -> Outcome {
     };
     let d = c.derive();
     let mut root = c.build(&d);
+    // conversions start from a value that is valid for its own version (a pre-WotLK source holds no skybox)
+    root.skybox = d.skybox.clone();
     let target = VERSIONS[to as usize];
     match guard("convert_root", || WmoConverter::new().convert_root(&mut root, target)) {
         Err(f) => {
@@ -759,7 +761,8 @@ pub fn eval_conv_root(c: &RootCase) -> Outcome {
         push(f, format!("conv-{}", x.signature), format!("after convert_root {} -> {}: {}", VNAMES[c.version as usize], VNAMES[to as usize], x.message));
     }
     // and it must serialise to the same bytes as the native root
-    let native = c2.build(&d2);
+    let mut native = c2.build(&d2);
+    native.skybox = d2.skybox.clone();
     match (write_root_bytes(&root, target), write_root_bytes(&native, target)) {
         (Ok(a), Ok(b)) => {
             if a != b {
